@@ -25,7 +25,7 @@ impl SubscriptionName {
     pub fn try_parse(unparsed: &str) -> Option<Self> {
         // Check that the length of the input is at least as long as something that contains
         // a valid subscription name.
-        if unparsed.len() <= PROJECT_PREFIX_LEN + SUBSCRIPTION_PREFIX_LEN + 2 {
+        if unparsed.len() < PROJECT_PREFIX_LEN + SUBSCRIPTION_PREFIX_LEN + 2 {
             return None;
         }
 
@@ -40,7 +40,18 @@ impl SubscriptionName {
 
         // Extract the subscription ID
         let start = PROJECT_PREFIX_LEN + project_id.len() + SUBSCRIPTION_PREFIX_LEN;
+
+        // Check that the project ID is followed by the subscription prefix.
+        if unparsed.get(PROJECT_PREFIX_LEN + project_id.len()..start)? != SUBSCRIPTION_PREFIX {
+            return None;
+        }
+
         let subscription_id = unparsed.get(start..).map(|s| s.trim_matches('/'))?;
+
+        // Neither ID may be empty, otherwise the formatted name would not parse.
+        if project_id.is_empty() || subscription_id.is_empty() {
+            return None;
+        }
 
         Some(SubscriptionName {
             project_id: project_id.into(),
